@@ -42,6 +42,11 @@ func objs(names ...string) map[string]string {
 	return out
 }
 
+// bigWidget is a phase-p1 Widget whose spec carries a payload of n bytes.
+func bigWidget(name string, n int) string {
+	return pkgw.WidgetYAML("Widget", name, "p1", "1\n  blob: "+strings.Repeat("x", n), nil)
+}
+
 func with(base map[string]string, extra map[string]string) map[string]string {
 	out := map[string]string{}
 	for k, v := range base {
@@ -74,6 +79,11 @@ var images = map[string]imageClass{
 	"dupdocs":  {Name: "dupdocs", Files: with(objs("a"), map[string]string{"manifest.yaml": baseManifest.YAML(), "two.yaml": pkgw.WidgetYAML("Widget", "q", "p1", "1", nil) + "---\n" + pkgw.WidgetYAML("Widget", "q", "p2", "1", nil)}), Invalid: "object"},
 	"openshiftonly": {Name: "openshiftonly", Files: with(objs("a", "b"), map[string]string{"manifest.yaml": manifestWith("  - platform: [OpenShift]\n")}), Invalid: "constraint-platform"},
 	"k8s130":        {Name: "k8s130", Files: with(objs("a", "b"), map[string]string{"manifest.yaml": manifestWith("  - platformVersion:\n      name: Kubernetes\n      range: \">=1.30.0\"\n")}), Invalid: "constraint-version"},
+	// phases beyond the 1 MiB chunk limit: the deployer spreads them over ObjectSlices
+	"big":  {Name: "big", Files: with(objs("a", "c"), map[string]string{"manifest.yaml": baseManifest.YAML(), "b.yaml": bigWidget("b1", 400<<10) + "---\n" + bigWidget("b2", 400<<10) + "---\n" + bigWidget("b3", 400<<10), "z.yaml": pkgw.WidgetYAML("Widget", "z", "p1", "1", nil)})},
+	"big2": {Name: "big2", Files: with(objs("a", "c"), map[string]string{"manifest.yaml": baseManifest.YAML(), "b.yaml": bigWidget("b1", 300<<10) + "---\n" + bigWidget("b2", 500<<10) + "---\n" + bigWidget("b4", 300<<10) + "---\n" + bigWidget("b5", 300<<10) + "---\n" + bigWidget("b6", 300<<10)})},
+	// small, small, one object beyond the limit on its own, small
+	"huge":          {Name: "huge", Files: with(objs("a"), map[string]string{"manifest.yaml": baseManifest.YAML(), "b.yaml": bigWidget("b1", 10<<10) + "---\n" + bigWidget("b2", 20<<10) + "---\n" + bigWidget("b3", 1<<20) + "---\n" + bigWidget("b4", 10<<10)})},
 	"unique":        {Name: "unique", Files: with(objs("a", "b"), map[string]string{"manifest.yaml": manifestWith("  - uniqueInScope: {}\n")}), Invalid: "constraint-unique"},
 }
 
@@ -258,6 +268,29 @@ func odTemplate(c map[string]any) (corev1alpha1.ObjectSetTemplateSpec, error) {
 	return od.Spec.Template.Spec, nil
 }
 
+// inlineSlices resolves the template's ObjectSlice references against the store: each phase's
+// objects followed by the objects of its slices, in the order the template names them (the order
+// in which the ObjectSet controller loads them).
+func inlineSlices(s *kmodel.Store, t corev1alpha1.ObjectSetTemplateSpec) (corev1alpha1.ObjectSetTemplateSpec, error) {
+	out := *t.DeepCopy()
+	for i := range out.Phases {
+		for _, sn := range out.Phases[i].Slices {
+			so := s.Objs[world.PKOKey("ObjectSlice", world.NS, sn)]
+			if so == nil {
+				return out, fmt.Errorf("phase %q references ObjectSlice %q which does not exist", out.Phases[i].Name, sn)
+			}
+			var sl corev1alpha1.ObjectSlice
+			b, _ := json.Marshal(so.Content)
+			if err := json.Unmarshal(b, &sl); err != nil {
+				return out, err
+			}
+			out.Phases[i].Objects = append(out.Phases[i].Objects, sl.Objects...)
+		}
+		out.Phases[i].Slices = nil
+	}
+	return out, nil
+}
+
 func condition(c map[string]any, typ string) (string, bool) {
 	st, _, _, ok := world.Condition(c, typ)
 	return st, ok
@@ -344,8 +377,13 @@ func check(sc scenario) func(before *world.World, ev world.Event, pass *world.Pa
 				return out
 			}
 			got, err1 := odTemplate(od.Content)
+			if err1 == nil {
+				got, err1 = inlineSlices(after.S, got)
+			}
 			want, err2 := freshRender(sc, pkg.Content)
-			if err1 != nil || err2 != nil {
+			if err1 != nil && err2 == nil && strings.Contains(err1.Error(), "references ObjectSlice") {
+				bad("deployment-differs-from-fresh-render", "ObjectDeployment template cannot be resolved: %v", err1)
+			} else if err1 != nil || err2 != nil {
 				bad("harness", "cannot compare templates: %v %v", err1, err2)
 			} else if !reflect.DeepEqual(normalize(got), normalize(want)) {
 				bad("deployment-differs-from-fresh-render", "ObjectDeployment template differs from a fresh render of the current spec:\n got  %s\n want %s", summary(got), summary(want))
@@ -581,6 +619,7 @@ func scenarios(quick bool) []scenario {
 		{Env: "k8s-1.27", Images: []string{"v1", "v2", "tmpl", "nophase", "missing"}, Confs: []string{"none", "x1", "x2"}, Edits: 3, LongLived: true},
 		{Env: "k8s-1.27", Images: []string{"v1", "v2"}, Confs: []string{"none"}, Edits: 1, Pauses: 2, ODDeletes: 1},
 		{Env: "k8s-1.27", Images: []string{"v1", "v2"}, Confs: []string{"none"}, Edits: 1, Pauses: 1, StartPaused: true},
+		{Env: "k8s-1.27", Images: []string{"v1", "big", "big2", "huge"}, Confs: []string{"none"}, Edits: 2},
 	}
 	if !quick {
 		out = append(out,
@@ -595,7 +634,7 @@ func scenarios(quick bool) []scenario {
 
 func run(o checks.Opts) *report.Report {
 	rep := report.New("C16", "bfs")
-	rep.Rule = "explicit-state BFS: Package p whose image is switched among {valid v1, valid v2, templated, not in registry, no manifest, two manifests, malformed object YAML, object without phase annotation, the same object in two files / in two documents of one file, OpenShift-only, Kubernetes>=1.30, uniqueInScope, and every manifest constraint entry of the grammar {no platform, [Kubernetes], [OpenShift]} x {no version, Kubernetes met/unmet, OpenShift met/unmet} as one entry and as two entries in either order} and whose config among {none, x:1, x:2, schema-violating}, 2-3 edits, pause/unpause, a foreign write to the ObjectDeployment landing before each API call of the pass (update conflict), every fault kind at every API call of the Package controller's pass, environments Kubernetes 1.27 / OpenShift 4.12, one system with all passes in one long-lived operator process, optional twin Package with the same manifest name; real Package controller + PackageDeployer + scripted registry; monitor on every Package pass; fresh-render differential oracle for valid specs"
+	rep.Rule = "explicit-state BFS: Package p whose image is switched among {valid v1, valid v2, templated, not in registry, no manifest, two manifests, malformed object YAML, object without phase annotation, the same object in two files / in two documents of one file, OpenShift-only, Kubernetes>=1.30, uniqueInScope, packages with a phase beyond the 1 MiB chunk limit (three 400 KiB objects; five 300-500 KiB objects; small, small, one 1 MiB object, small - the template's ObjectSlices are resolved against the store before comparing), and every manifest constraint entry of the grammar {no platform, [Kubernetes], [OpenShift]} x {no version, Kubernetes met/unmet, OpenShift met/unmet} as one entry and as two entries in either order} and whose config among {none, x:1, x:2, schema-violating}, 2-3 edits, pause/unpause, a foreign write to the ObjectDeployment landing before each API call of the pass (update conflict), every fault kind at every API call of the Package controller's pass, environments Kubernetes 1.27 / OpenShift 4.12, one system with all passes in one long-lived operator process, optional twin Package with the same manifest name; real Package controller + PackageDeployer + scripted registry; monitor on every Package pass; fresh-render differential oracle for valid specs"
 	scs := scenarios(o.Quick())
 	rep.Bounds["systems"] = len(scs)
 	for i, sc := range scs {
@@ -628,9 +667,9 @@ func init() {
 		},
 		Subs: []*checks.Sub{{Name: "bfs", Shards: func(t string) int {
 			if t == "thorough" {
-				return 13
+				return 15
 			}
-			return 10
+			return 11
 		}, Run: run, Replay: replay, Parallel: true}},
 	})
 }
